@@ -703,3 +703,97 @@ def extra_checks(ctx):
         seen.add(k)
         d = fams[fam].descr(c) if fams[fam].descr else c
         ctx.problem('correspondence', fam, c, f'Coq model vs implementation, {lab}: {msg}', d)
+
+
+# ---- added after seeded change C17-3: gradients w.r.t. the sequence parameters given to the constructor ----------------
+_SEQ_MODELS = {
+    'InversionRecovery': (['ti'], 2), 'SaturationRecovery': (['ti'], 2), 'MonoExponentialDecay': (['decay_time'], 2), 'MOLLI': (['ti'], 3),
+    'TransientSteadyStateWithPreparation': (['sampling_time', 'repetition_time', 'm0_scaling_preparation', 'delay_after_preparation'], 3),
+    'WASABI': (['offsets', 'tp', 'b1_nom', 'gamma', 'freq'], 4), 'WASABITI': (['offsets', 'trec', 'tp', 'b1_nom', 'gamma', 'freq'], 3),
+}
+
+
+def _gen_seqparam_grad(rng, tier):
+    out = []
+    names = list(_SEQ_MODELS)
+    for i in range(21 if tier == 'quick' else 280):
+        m = names[i % len(names)]
+        params, _ = _SEQ_MODELS[m]
+        out.append({'model': m, 'wrt': params[(i // len(names)) % len(params)], 'seed': rng.randrange(10 ** 6)})
+    return out
+
+
+def _seq_values(model, g):
+    import torch
+    t = 4
+    u = lambda lo, hi, n=t: torch.rand(n, generator=g, dtype=torch.float64) * (hi - lo) + lo  # noqa: E731
+    if model in ('InversionRecovery', 'SaturationRecovery', 'MOLLI'):
+        return {'ti': u(0.1, 2.0)}
+    if model == 'MonoExponentialDecay':
+        return {'decay_time': u(0.01, 0.2)}
+    if model == 'TransientSteadyStateWithPreparation':
+        return {'sampling_time': u(0.05, 1.0), 'repetition_time': u(0.004, 0.008, 1)[0], 'm0_scaling_preparation': u(-1.0, -0.5, 1)[0],
+                'delay_after_preparation': u(0.01, 0.05, 1)[0]}
+    vals = {'offsets': u(-300.0, 300.0), 'tp': u(0.004, 0.006, 1)[0], 'b1_nom': u(3.0, 4.0, 1)[0], 'gamma': u(42.0, 43.0, 1)[0], 'freq': u(120.0, 130.0, 1)[0]}
+    if model == 'WASABITI':
+        vals = {'offsets': vals['offsets'], 'trec': u(0.5, 3.0), **{k: v for k, v in vals.items() if k != 'offsets'}}
+    return vals
+
+
+def _impl_seqparam_grad(c):
+    import torch
+    import mrpro.operators.models as M
+    g = torch.Generator().manual_seed(c['seed'])
+    vals = _seq_values(c['model'], g)
+    n_in = _SEQ_MODELS[c['model']][1]
+    inputs = [torch.rand(3, generator=g, dtype=torch.float64) * 0.8 + 0.6 for _ in range(n_in)]   # maps of 3 voxels in (0.6, 1.4)
+    if c['model'] in ('WASABI', 'WASABITI'):
+        inputs[0] = inputs[0] * 10 - 10   # b0 shift in Hz
+    w = torch.rand(4, 3, generator=g, dtype=torch.float64)
+
+    def build(v):
+        return getattr(M, c['model'])(**v)
+
+    def loss(v):
+        (s,) = build(v)(*inputs)
+        s = s.real if s.is_complex() else s
+        return (w * s).sum()
+    v = {k: (x.clone().requires_grad_(True) if k == c['wrt'] else x.clone()) for k, x in vals.items()}
+    op = build(v)
+    p = getattr(op, c['wrt'])
+    if not p.requires_grad:
+        return {'no_grad': True}
+    (s,) = op(*inputs)
+    s = s.real if s.is_complex() else s
+    try:
+        (gp,) = torch.autograd.grad((w * s).sum(), p)
+    except RuntimeError as e:
+        return {'grad_error': str(e)[:120]}
+    flat = vals[c['wrt']].reshape(-1)
+    worst = 0.0
+    for k in range(flat.numel()):
+        eps = 1e-6 * max(1.0, abs(float(flat[k])))
+        vp = {kk: x.clone() for kk, x in vals.items()}
+        vm = {kk: x.clone() for kk, x in vals.items()}
+        vp[c['wrt']].reshape(-1)[k] += eps
+        vm[c['wrt']].reshape(-1)[k] -= eps
+        fd = (loss(vp) - loss(vm)).item() / (2 * eps)
+        an = gp.reshape(-1)[k].item()
+        worst = max(worst, abs(fd - an) / max(1e-6, abs(fd), abs(an)))
+    return {'dev': worst}
+
+
+def _oracle_seqparam_grad(c, o):
+    if isinstance(o, dict) and 'raises' in o:
+        return f'{c["model"]}: gradient w.r.t. {c["wrt"]} raised {o}'
+    if o.get('no_grad'):
+        return f'{c["model"]}: the sequence parameter {c["wrt"]} was given with requires_grad=True but the model does not track its gradient'
+    if 'grad_error' in o:
+        return f'{c["model"]}: no autograd gradient w.r.t. {c["wrt"]}: {o["grad_error"]}'
+    if o['dev'] > 1e-4:
+        return f'{c["model"]}: autograd gradient w.r.t. the sequence parameter {c["wrt"]} differs from central finite differences (relative {o["dev"]:.3g})'
+    return None
+
+
+FAMILIES.append(vlib.Family('sequence_parameter_gradients', _gen_seqparam_grad, _impl_seqparam_grad, None, '', None, _oracle_seqparam_grad,
+                            descr=lambda c: {'model': c['model'], 'wrt': c['wrt']}, theorem='C17_derivatives_* (implementation-level for sequence parameters)'))
